@@ -467,7 +467,6 @@ def drive(tier, verif_seed, procs, budget_s):
     agg = driver.Agg()
     ctxmp = multiprocessing.get_context('fork')
     ntraces = 24 if tier == 'quick' else 400
-    deadline = t0 + budget_s
     exhaustive = []
     partial = []
     unknown = []
@@ -497,7 +496,8 @@ def drive(tier, verif_seed, procs, budget_s):
                 measured.append((seed, a['T'], a['sample']))
         guard_msg = '%d traces executed twice un-armed in forked children: ack streams and T_sys/T_evt equal' % len(measured)
         measured.sort(key=lambda x: seeds.index(x[0]))
-        # phase 2: enumerate crash points trace by trace
+        # phase 2: enumerate crash points trace by trace (the budget is charged from here)
+        deadline = time.time() + budget_s
         pending = {}
         kinds = [1] + ([2] if have_shim else []) + ([3] if (have_shim and tier == 'thorough') else [])
         work = []
@@ -573,6 +573,9 @@ def drive(tier, verif_seed, procs, budget_s):
                     print('HARNESS-ERROR violation not reproducible in a fresh interpreter (%s): %s' % (path, out[-1500:]))
                     exit_code = 2
     wall = time.time() - t0
+    if agg.stats.get('crash', 0) == 0 and exit_code == 0:
+        print('HARNESS-ERROR no crash point was executed within the budget (no verdict)')
+        return 2
     mod = sys.modules[__name__]
     extra = {
         'syscall_level': have_shim,
